@@ -7,7 +7,7 @@ Local Open Scope Z_scope.
 Definition ZOps : NumOps := {|
   num := Z; nadd := Z.add; nsub := Z.sub; nmul := Z.mul;
   ndiv := fun a b => if b =? 0 then None else Some (Z.div a b);
-  nltb := Z.ltb; nleb := Z.leb; neqb := Z.eqb; nofZ := fun z => z;
+  nltb := Z.ltb; nleb := Z.leb; neqb := Z.eqb; nofZ := fun z => z; ndec := fun m k => Z.div m (10 ^ k);
   nround := fun _ x => x; nsum := fun l => fold_left Z.add l 0;
   nsqrt := fun x => if x <? 0 then None else Some (Z.sqrt x);
   nabs := Z.abs; nfloat := fun x => x; npow := fun x k => Z.pow x k; nfinite := fun _ => true |}.
